@@ -25,11 +25,49 @@ N = {"quick": (8, 40), "thorough": (16, 250)}
 FLOORS = {"subroutines-present": 0.291, "composite": 0.248}  # a third of the measured frequency: a starving generator is a harness error, sampling noise is not
 
 COMBOS = list(itertools.product([0, 1, 2], [None, "cffsubr", "compreffor"], [1, 2]))
+COMPREFFOR_BUDGET_S = 20  # wall-clock bound on one compreffor run (a third-party subroutiniser that needs minutes on a few small generated fonts)
+_worker = []
+
+
+def _close_worker():
+    for w in _worker:
+        try:
+            w.kill()
+        except Exception:
+            pass
+    del _worker[:]
+
+
+def compile_bounded(spec, module, opt, sub, ver):
+    """the compile call in a worker process, answered within COMPREFFOR_BUDGET_S or abandoned: returns the response dict or None (inconclusive)"""
+    import atexit
+    import json
+    import os
+    import select
+    import subprocess
+    import sys
+
+    if not _worker:
+        here = os.path.dirname(os.path.dirname(os.path.abspath(__file__)))
+        _worker.append(subprocess.Popen([sys.executable, os.path.join(here, "worker12.py")], stdin=subprocess.PIPE, stdout=subprocess.PIPE, stderr=subprocess.DEVNULL, text=True, cwd=os.path.dirname(here)))
+        atexit.register(_close_worker)
+    w = _worker[0]
+    w.stdin.write(json.dumps({"spec": spec, "module": module, "opt": opt, "sub": sub, "ver": ver}) + "\n")
+    w.stdin.flush()
+    ready, _, _ = select.select([w.stdout], [], [], COMPREFFOR_BUDGET_S)
+    if not ready:
+        _close_worker()
+        return None
+    line = w.stdout.readline()
+    if not line:
+        _close_worker()
+        raise RuntimeError("C12 compile worker died")
+    return json.loads(line)
 
 
 @st.composite
 def _case(draw):
-    spec = draw(gen.outline_font(max_glyphs=8, notdef=True))
+    spec = draw(gen.outline_font(max_glyphs=8, notdef=None))
     # duplicate some glyphs' contours into new glyphs so subroutinisers find shared material
     simple = [g for g in spec["glyphs"] if g.get("contours")]
     extra = []
@@ -104,22 +142,42 @@ def run_case(case, ctx):
     subrs = False
     for opt, sub, ver in COMBOS:
         unsupported = (opt, sub, ver) == (2, "compreffor", 2)
-        try:
-            with guard("compileOTF(optimizeCFF=%s, subroutinizer=%s, cffVersion=%s)" % (opt, sub, ver), allowed=(NotImplementedError,)):
-                t = ufo2ft.compileOTF(S.build(spec, module), optimizeCFF=opt, subroutinizer=sub, cffVersion=ver, useProductionNames=False)
-                b = io.BytesIO()
-                t.save(b)
-        except NotImplementedError:
-            if not unsupported:
+        if (opt, sub, ver) == (2, "compreffor", 1):
+            # the one combination that really runs compreffor: in a worker process under a wall-clock bound; beyond it the combination is inconclusive
+            import base64
+
+            resp = compile_bounded(spec, case["module"], opt, sub, ver)
+            if resp is None:
+                ctx.count("compreffor-runs-abandoned-after-%ds(inconclusive)" % COMPREFFOR_BUDGET_S)
+                continue
+            if resp.get("not_implemented"):
                 raise Violation("NotImplementedError for a supported combination", combo=[opt, sub, ver])
-            continue
-        if unsupported:
-            raise Violation("unsupported combination (compreffor, CFF2, subroutinise) did not raise NotImplementedError")
+            if "exc" in resp:
+                files = [l for l in resp.get("trace", "").splitlines() if l.strip().startswith("File ")]
+                if files and "/ufo2ft/" in files[-1]:
+                    raise Violation("unexpected %s in compileOTF(optimizeCFF=2, subroutinizer=compreffor, cffVersion=1)" % resp["exc"][:300], bucket=[resp["exc"].split(":")[0], files[-1].strip()[:200]], traceback=resp["trace"][-800:])
+                raise RuntimeError("compile worker: " + resp["exc"])
+            b = io.BytesIO(base64.b64decode(resp["font"]))
+        else:
+            try:
+                with guard("compileOTF(optimizeCFF=%s, subroutinizer=%s, cffVersion=%s)" % (opt, sub, ver), allowed=(NotImplementedError,)):
+                    t = ufo2ft.compileOTF(S.build(spec, module), optimizeCFF=opt, subroutinizer=sub, cffVersion=ver, useProductionNames=False)
+                    b = io.BytesIO()
+                    t.save(b)
+            except NotImplementedError:
+                if not unsupported:
+                    raise Violation("NotImplementedError for a supported combination", combo=[opt, sub, ver])
+                continue
+            if unsupported:
+                raise Violation("unsupported combination (compreffor, CFF2, subroutinise) did not raise NotImplementedError")
         t = TTFont(io.BytesIO(b.getvalue()))
         gs = t.getGlyphSet()
         if opt == 2 and _has_subrs(t):
             subrs = True
         res = {}
+        if set(names) - set(t.getGlyphOrder()):
+            raise Violation("a source glyph is missing from the compiled font", combo=[opt, sub, ver], missing=sorted(set(names) - set(t.getGlyphOrder())))
+        names = list(t.getGlyphOrder())  # every glyph of the font, including the ones ufo2ft synthesises (.notdef)
         for n in names:
             cyc = otread.draw_cycles(gs, n)
             if ver == 1:
@@ -130,15 +188,20 @@ def run_case(case, ctx):
                 [x for x in (R.n1((c[0], c[1])) for c in cyc) if x],
                 t["hmtx"][n][0],
                 [R.strip_tail((c[0], c[1])) for c in cyc] if opt == 0 else None,
+                [tuple(c[0]) for c in cyc if R.n1((c[0], c[1]))],  # N1 is a form of the relative moves: the start point (which no optimisation moves) pins each contour's place
             )
         layout = {tag: t.reader[tag] for tag in ("GPOS", "GDEF", "GSUB") if tag in t.reader}
         if ref is None:
             ref = (res, layout)
             continue
+        if set(res) != set(ref[0]):
+            raise Violation("glyph set differs from the reference combination", combo=[opt, sub, ver], got=sorted(res), reference=sorted(ref[0]))
         for n in names:
             a, b_ = ref[0][n], res[n]
             if len(a[0]) != len(b_[0]) or not all(R.n1_equal(x, y) for x, y in zip(a[0], b_[0])):
                 raise Violation("drawing differs from the reference combination", glyph=n, combo=[opt, sub, ver], reference=a[0], got=b_[0])
+            if a[3] != b_[3]:
+                raise Violation("a contour starts at a different place than in the reference combination", glyph=n, combo=[opt, sub, ver], reference=a[3], got=b_[3])
             if a[1] != b_[1]:
                 raise Violation("advance width differs from the reference combination", glyph=n, combo=[opt, sub, ver], reference=a[1], got=b_[1])
             if opt == 0 and a[2] != b_[2]:
@@ -153,6 +216,8 @@ def run_case(case, ctx):
     if any(g["name"].startswith("pool") for g in spec["glyphs"]):
         ctx.label("identical-and-partially-shared-glyphs")
     widths = {R.ot_round(g.get("width", 0)) for g in spec["glyphs"]}
+    if not any(g["name"] == ".notdef" for g in spec["glyphs"]):
+        ctx.label("synthesised-notdef")
     if "kerning" in spec:
         ctx.label("has-GPOS")
     if "postscriptDefaultWidthX" in spec["info"]:
